@@ -24,7 +24,9 @@ CLAUSES = {"LockOwned", "AsExpected", "Converged", "NoLoss", "NoArtefacts", "Rea
 
 def histories(ctx, n, seed, count):
     """create-only histories over both sides with disjoint footprints (TLC-generated, then filtered)"""
-    cases = sc.generate(ctx, "thr%d" % n, [1, 2], n, ["I"], "std", filt="disjoint", simulate=(40, seed))
+    cases = sc.generate(ctx, "thr%d" % n, [1, 2], n, ["I"], "empty", filt="disjoint")
+    import random as _r
+    _r.Random(seed).shuffle(cases)
     out = []
     for c in cases:
         ops = [t for t in c["tokens"] if t[0] == "U"]
@@ -47,7 +49,7 @@ def run(ctx):
                "real time; MockProvider flavours; MockStorage")
     quick = ctx.tier == "quick"
     flavors = ["oid/oid", "path/oidf"] if quick else ["oid/oid", "path/oidf", "oidf/path", "path/path"]
-    hs = histories(ctx, 4, ctx.seed + 1, 12 if quick else 60)
+    hs = histories(ctx, 3, ctx.seed + 1, 12 if quick else 60)
     if len(hs) < 3:
         raise MachineryError("too few threaded histories generated: %d" % len(hs))
     cases = []
